@@ -77,7 +77,7 @@ func runC20(c *Ctx) {
 		for _, a := range storesTo(push, bytesF) {
 			n++
 			bo, ok := stripConv(a.Val).(*ssa.BinOp)
-			good := ok && bo.Op == token.ADD && loadOfField(bo.X, bytesF) && isLengthOf(bo.Y)
+			good := ok && bo.Op == token.ADD && ((loadOfField(bo.X, bytesF) && isLengthOf(bo.Y)) || (loadOfField(bo.Y, bytesF) && isLengthOf(bo.X)))
 			okLit, errLit := false, false
 			if cpush != nil {
 				okv, errv := extractOf(cpush, 0), extractOf(cpush, 1)
@@ -153,7 +153,8 @@ func runC20(c *Ctx) {
 			n++
 			okCap := false
 			for _, l := range guardsOf(in.Block()) {
-				op, x, y, ok := l.cmp()
+				op, y, x, ok := l.cmpWhere(func(v ssa.Value) bool { return loadOfField(v, maxBytesF) })
+				op = mirrorOp(op) // read as: x OP maxBytes
 				if ok && op == token.LEQ && loadOfField(y, maxBytesF) {
 					if bo, ok := stripConv(x).(*ssa.BinOp); ok && bo.Op == token.ADD && ((loadOfField(bo.X, bytesF) && isLengthOf(bo.Y)) || (loadOfField(bo.Y, bytesF) && isLengthOf(bo.X))) {
 						okCap = true
@@ -206,7 +207,8 @@ func runC20(c *Ctx) {
 		for _, r := range returnsOf(check) {
 			if isNil(r.Results[0]) {
 				for _, l := range guardsOf(r.Block()) {
-					op, x, y, ok := l.cmp()
+					op, y, x, ok := l.cmpWhere(func(v ssa.Value) bool { return loadOfField(v, maxSlotsF) })
+					op = mirrorOp(op) // read as: x OP maxSlots
 					if ok && op == token.LSS && loadOfField(y, maxSlotsF) {
 						if lc, ok := stripConv(x).(*ssa.Call); ok {
 							if b, ok := lc.Call.Value.(*ssa.Builtin); ok && b.Name() == "len" && loadOfField(lc.Call.Args[0], slotsF) {
